@@ -11,6 +11,7 @@ from concurrent.futures import ThreadPoolExecutor
 args = sys.argv[1:]
 jobs = 4
 allprops = False
+onlyprop = None
 subs = []
 i = 0
 while i < len(args):
@@ -18,6 +19,8 @@ while i < len(args):
         jobs = int(args[i + 1]); i += 2; continue
     if args[i] == "-all":
         allprops = True; i += 1; continue
+    if args[i] == "-only-prop":
+        onlyprop = args[i + 1]; i += 2; continue
     subs.append(args[i]); i += 1
 
 env = dict(os.environ, GOFLAGS="-mod=mod", GOPROXY="off", GOSUMDB="off", GOTOOLCHAIN="local")
@@ -28,7 +31,9 @@ def one(seed):
     props = meta.get("detected_by") or []
     if not props:
         return name, "skip", "no check is recorded to detect this change"
-    if not allprops:
+    if onlyprop:
+        props = [p for p in props if p == onlyprop]
+    elif not allprops:
         props = props[:1]
     scratch = tempfile.mkdtemp(prefix="pikeself.")
     out = tempfile.mkdtemp(prefix="pikeselfout.")
@@ -45,7 +50,7 @@ def one(seed):
         for pr in props:
             e2 = dict(env, PIKEVC_REPO=scratch, PIKEVC_OUT=out, PIKEVC_VERIF="/verif")
             t0 = time.time()
-            r = subprocess.run(["/verif/bin/pikevc", "check", pr, "quick"], env=e2, capture_output=True, text=True, timeout=1200)
+            r = subprocess.run(["/verif/bin/check", pr, "quick"], env=e2, capture_output=True, text=True, timeout=1200)
             viol = [l for l in r.stdout.splitlines() if l.startswith("VIOLATION")]
             hit = r.returncode == 1 and len(viol) > 0
             ok = ok and hit
@@ -57,7 +62,7 @@ def one(seed):
 
 seeds = sorted(d for d in glob.glob("/verif/seeded/*") if os.path.exists(os.path.join(d, "meta.json")) and os.path.exists(os.path.join(d, "patch.diff")))
 if subs:
-    seeds = [s for s in seeds if any(x in os.path.basename(s) for x in subs)]
+    seeds = [s for s in seeds if any(x == os.path.basename(s) or (not onlyprop and x in os.path.basename(s)) for x in subs)]
 bad = 0
 with ThreadPoolExecutor(max_workers=jobs) as ex:
     for name, st, info in ex.map(one, seeds):
